@@ -907,4 +907,53 @@ theorem hc_exited_stays (fixed : Bool) (evs : List HcEv) : evs.foldl (hcStep fix
   | nil => rfl
   | cons e l ih => exact ih
 
+/-! ## the usage loop after `cancel()` -/
+
+/-- how far the cancelled loop is from its exit: rank of the select it is blocked in, plus 3 while a
+tick is still waiting in the ticker's channel -/
+def mu (s : USt) : Nat :=
+  match s.loc with
+  | .exited => 0
+  | .idle => 1 + (if s.tick then 3 else 0)
+  | .waitSent => 2 + (if s.tick then 3 else 0)
+  | .waitPending => 3 + (if s.tick then 3 else 0)
+
+theorem mu_le (s : USt) : mu s ≤ 6 := by
+  obtain ⟨loc, tick, cancelled, chClosed, cur, last, script, calls⟩ := s
+  cases loc <;> cases tick <;> simp [mu]
+
+theorem mu_zero (s : USt) (h : mu s = 0) : s.loc = .exited := by
+  obtain ⟨loc, tick, cancelled, chClosed, cur, last, script, calls⟩ := s
+  cases loc <;> cases tick <;> simp [mu] at h ⊢
+
+/-- a cancelled loop that has not exited is never blocked, stays cancelled, and every step it
+takes — whichever ready case the runtime picks, whatever the client answers — brings it closer -/
+theorem ustep_cancelled (ch : Bool) (s : USt) (hc : s.cancelled = true) (hl : s.loc ≠ .exited) :
+    ∃ s', ustep ch s = some s' ∧ s'.cancelled = true ∧ mu s' < mu s := by
+  obtain ⟨loc, tick, cancelled, chClosed, cur, last, script, calls⟩ := s
+  simp only at hc hl
+  subst hc
+  cases loc <;> cases tick <;> cases chClosed <;> cases ch <;>
+    simp [ustep, mu, sendReport, retrySend, USt.nextOut, USt.called] at hl ⊢ <;>
+    (try (cases cur <;> cases last <;> simp)) <;>
+    (try (cases script with
+      | nil => simp
+      | cons o r => cases o <;> simp))
+
+theorem urun_exits (choices : List Bool) : ∀ s : USt, s.cancelled = true → mu s ≤ choices.length →
+    (urun choices s).loc = .exited := by
+  induction choices with
+  | nil => intro s _ h; exact mu_zero s (by simpa using h)
+  | cons ch rest ih =>
+    intro s hc h
+    by_cases hl : s.loc = .exited
+    · have hn : ustep ch s = none := by unfold ustep; rw [hl]
+      have hm : mu s = 0 := by unfold mu; rw [hl]
+      show (urun rest ((ustep ch s).getD s)).loc = .exited
+      rw [hn]; exact ih s hc (by simp [hm])
+    · obtain ⟨s', hs, hc', hlt⟩ := ustep_cancelled ch s hc hl
+      show (urun rest ((ustep ch s).getD s)).loc = .exited
+      rw [hs]
+      exact ih s' hc' (by simp at h ⊢; omega)
+
 end Refinery.Lemmas.Shutdown
